@@ -59,7 +59,7 @@ Definition cond (w : Z) (op a b : Z) : bool :=
     buffer, the packet, the stack or one registered range (C02) *)
 Definition in_range (lo hi a n : Z) : bool := (lo <=? a) && (a + n <=? hi).
 Definition access_ok (E : ienv) (a n : Z) : bool :=
-  (a + n <=? 2 ^ 64) &&
+  (a + n <? 2 ^ 64) &&
   (in_range (e_mbuff_base E) (e_mbuff_base E + e_mbuff_len E) a n
    || in_range (e_mem_base E) (e_mem_base E + e_mem_len E) a n
    || in_range (e_stack_base E) (e_stack_base E + e_stack_len E) a n
@@ -82,18 +82,12 @@ Definition refresh_usage (E : ienv) (stacks : list frame) (idx pc : Z) : res (li
     end
   else Ok stacks.
 
-(** ** one instruction *)
-Definition isa_step (E : ienv) (s : istate) : res stepres :=
-  let '(reg, pc, fidx, stacks, m) := s in
-  let i := insn_at (e_prog E) pc in
-  let o := opc i in
+(** ** one instruction: [i] is the instruction at [pc], [next] = pc + 1 *)
+Definition isa_exec_dec (o cl op : Z) (use_reg : bool)
+    (E : ienv) (i : insn) (reg : list Z) (next fidx : Z) (stacks : list frame) (m : mem)
+  : res stepres :=
   let d := dst i in
   let sr := src i in
-  stacks <- refresh_usage E stacks fidx pc ;;
-  let next := pc + 1 in
-  let cl := o mod 8 in
-  let op := o / 16 in
-  let use_reg := (o / 8) mod 2 =? 1 in
   if (cl =? 7) || (cl =? 4) then
     (* ALU64 / ALU32 *)
     if o =? op_le then Ok (SNext (set_reg reg d (to_little (imm i) (rd reg d)), next, fidx, stacks, m))
@@ -162,6 +156,18 @@ Definition isa_step (E : ienv) (s : istate) : res stepres :=
     else
       let v := if cl =? 2 then imm i else rd reg sr in        (* stores truncate to the width *)
       Ok (SNext (reg, next, fidx, stacks, mstore m a n (v mod 2 ^ (8 * n)))).
+
+(** decoding of the opcode byte: class = low 3 bits, operation = high nibble, source bit = bit 3 *)
+Definition isa_exec (E : ienv) (i : insn) (reg : list Z) (next fidx : Z) (stacks : list frame) (m : mem)
+  : res stepres :=
+  let o := opc i in
+  isa_exec_dec o (o mod 8) (o / 16) ((o / 8) mod 2 =? 1) E i reg next fidx stacks m.
+
+Definition isa_step (E : ienv) (s : istate) : res stepres :=
+  let '(reg, pc, fidx, stacks, m) := s in
+  let i := insn_at (e_prog E) pc in
+  stacks <- refresh_usage E stacks fidx pc ;;
+  isa_exec E i reg (pc + 1) fidx stacks m.
 
 (** ** a whole execution, on the same driver shape as the implementation model *)
 Fixpoint isa_steps (fuel : nat) (E : ienv) (s : istate) : outcome :=
